@@ -184,6 +184,7 @@ def handleC01 (c : Case) : Verdict :=
         let labels := kinds ++
           (if src.any (fun a => a.kind == .file && a.nlink > 1) then ["hardlinks"] else []) ++
           (if src.any (fun a => !a.md.xattrs.isEmpty) then ["xattrs"] else []) ++
+          (if src.any (fun a => !a.md.xattrs.isEmpty && a.kind != .file && a.kind != .dir && a.kind != .socket) then ["xattrs-on-symlink-fifo-device"] else []) ++
           (if src.any (fun a => a.path.any (fun n => !validUTF8 n)) then ["name-invalid-utf8"] else []) ++
           (if src.any (fun a => a.path.any (fun n => n.any (fun b => b < 32 || b == 127))) then ["name-control-chars"] else []) ++
           (if src.any (fun a => a.path.any (fun n => n.length > 200)) then ["name-long"] else []) ++
